@@ -90,6 +90,11 @@ def build_family(g):
         Y = X[rng.permutation(n)]
     elif fam == 'identical':
         Y = X.copy()
+    elif fam == 'maxn':
+        X = np.zeros(n, dtype=np.int64) if kx == 1 else (np.arange(n) >= n - 3).astype(np.int64)
+        Y = np.zeros(n, dtype=np.int64)
+        pos = rng.choice(n, size=ky, replace=False)
+        Y[pos] = np.arange(1, ky + 1)           # ky codes that occur exactly once
     elif fam == 'highcard':
         Y = rng.integers(0, ky, size=n)
         dep = rng.random(n) < 0.3
@@ -123,6 +128,14 @@ def build_wide(w):
 
 
 @st.composite
+def maxn_pair(draw):
+    """n = 10^6 exactly (the upper end of the stated domain) with a single huge target stratum and a feature made of one
+    dominant code plus codes that occur once: cells whose conditional probability is exactly 1e-6."""
+    return {'gen': {'fam': 'maxn', 'n': 1_000_000, 'kx': draw(st.sampled_from([1, 1, 2])), 'ky': draw(st.integers(200, 1500)),
+                    'k': draw(st.integers(0, 2**32 - 1)), 'p': 0.0}}
+
+
+@st.composite
 def highcard_pair(draw):
     """Feature with more than 1024 distinct values, many of them repeated, against a target with 2-6 strata (n 3000-12000)."""
     n = draw(st.integers(3000, 12000))
@@ -136,13 +149,32 @@ def lagged_pair(draw):
     self) with a non-zero minimum code: legitimate arguments whose memory overlaps."""
     return {'lagged': {'n': draw(st.integers(2, 400)), 'lag': draw(st.integers(1, 12)), 'k': draw(st.integers(2, 6)),
                        'min': draw(st.sampled_from([1, 3, 7, 1000])), 'seed': draw(st.integers(0, 2**32 - 1)),
-                       'period': draw(st.sampled_from([0, 0, 3, 5]))}}
+                       'period': draw(st.sampled_from([0, 0, 3, 5])),
+                       'layout': draw(st.sampled_from(['windows', 'windows', 'columns', 'row-vs-column', 'prefix-vs-stride', 'reversed']))}}
 
 
 def build_lagged(g):
-    """-> (series buffer int32, Y view, X view)."""
+    """-> (buffer int32, Y view, X view). Layouts: overlapping windows of a series (default), two columns of a row-major
+    table, row 0 vs column 0 of a square table, a prefix vs an every-other-element view of one buffer, reversed views."""
     rng = np.random.Generator(np.random.PCG64(int(g['seed'])))
     n, lag = int(g['n']), int(g['lag'])
+    layout = g.get('layout', 'windows')
+    k, mn = int(g['k']), int(g['min'])
+    if layout == 'columns':
+        table = (rng.integers(0, k, size=(n, 3)) + mn).astype(np.int32)
+        table[:, 1] = np.where(rng.random(n) < 0.5, table[:, 0], table[:, 1])
+        return table, table[:, 0], table[:, 1]
+    if layout == 'row-vs-column':
+        m = max(2, min(n, 60))
+        table = (rng.integers(0, k, size=(m, m)) + mn).astype(np.int32)
+        return table, table[0, :], table[:, 0]
+    if layout == 'prefix-vs-stride':
+        buf = (rng.integers(0, k, size=2 * n) + mn).astype(np.int32)
+        return buf, buf[::2], buf[:n]
+    if layout == 'reversed':
+        buf = (rng.integers(0, k, size=n) + mn).astype(np.int32)
+        other = np.where(rng.random(n) < 0.5, buf, (rng.integers(0, k, size=n) + mn)).astype(np.int32)
+        return buf, buf[::-1], other[::-1]
     s = rng.integers(0, int(g['k']), size=n + lag)
     if g.get('period'):
         s = (s + (np.arange(n + lag) // int(g['period']))) % int(g['k'])      # serial dependence
